@@ -20,6 +20,13 @@ def configs(tier, seed):
                     continue
                 cfgs.append(dict(n=n, nu=nu, K=3, part=list(part), branch=branch, semi=True, weight=10 ** (n + nu),
                                  wstride=7 if n + nu <= 3 else (97 if n + nu == 4 else 4001)))
+    # labeled rows given in a non-default order (I_train != arange: Node.idx != position); unlabeled rows follow
+    for n, nu, ids in ([(2, 1, [1, 0, 2]), (3, 1, [2, 0, 1, 3])] if tier == "quick" else
+                       [(2, 1, [1, 0, 2]), (3, 1, [2, 0, 1, 3]), (2, 2, [1, 0, 2, 3]), (3, 2, [1, 2, 0, 3, 4])]):
+        for part in sup.partitions(n, 2, min(n, 3)):
+            for branch in ("pre", "fn"):
+                cfgs.append(dict(n=n, nu=nu, K=3, part=list(part), branch=branch, semi=True, ids=ids, weight=10 ** (n + nu),
+                                 wstride=7 if n + nu <= 3 else 97))
     # empty unlabeled set == supervised
     for n in ([2, 3, 4] if tier == "quick" else [2, 3, 4, 5]):
         for part in sup.partitions(n, 2, 3 if n < 5 else 2):
